@@ -1019,6 +1019,65 @@ def check_header_counts(ctx, rule='R-HDRCOUNT'):
     ctx.floor('header counts fed from locals', n, 3)
 
 
+def check_landuse_names(ctx, rule='R-LUZIP'):
+    """land-use reader: the list of variable names is zipped with the record names of the layout that matched the file size; on
+    every path the two have the same length, otherwise zip drops the last record (and the names before it move one record up)"""
+    from .. import paths as _paths
+    ctx.rule(rule, 'land-use reader: the variable names zipped with the record names have the same length on every path (zip truncates silently)')
+    rm = ctx.src.mod(CAMX + 'landuse/Memmap.py')
+    fn = None
+    for q, f_ in rm.functions.items():
+        if q.endswith('__addvars'):
+            fn, qn = f_, q
+    where = 'src/PseudoNetCDF/%slanduse/Memmap.py landuse.__addvars' % CAMX
+    if fn is None:
+        ctx.undec(rule, 'names', where, '__addvars not found')
+        return
+
+    def names_len(v):
+        # dtype(dict(names=[...], formats=[...]))
+        for c in ast.walk(v):
+            if isinstance(c, ast.Call) and dotted(c.func) == 'dict' and kw(c, 'names') is not None and isinstance(kw(c, 'names'), ast.List):
+                return len(kw(c, 'names').elts)
+        return None
+    n = 0
+    bad = None
+    for pth in _paths.enumerate_paths(fn.body, limit=5000):
+        if pth.exit[0] == 'raise':
+            continue
+        nrec = nkeys = None
+        keyst = None
+        for st in pth.stmts:
+            if isinstance(st, ast.Assign) and isinstance(st.targets[0], ast.Name):
+                if st.targets[0].id == 'file_dtype':
+                    nrec = names_len(st.value)
+                if st.targets[0].id == 'varkeys':
+                    nkeys = len(st.value.elts) if isinstance(st.value, ast.List) else 'same'
+                    keyst = st
+        if nrec is None or nkeys is None:
+            continue
+        # decisions on the number of records are evaluated with the number this path has
+        from .. import consteval as _ce
+        feasible = True
+        for e_, pol in pth.conds:
+            if 'file_dtype.names' in norm(e_):
+                got = _ce.ev(e_, {}, lambda n_, nrec=nrec: nrec if norm(n_) == 'len(file_dtype.names)' else None)
+                if got is not _ce.UNK and bool(got) != pol:
+                    feasible = False
+        if not feasible:
+            continue
+        n += 1
+        if nkeys != 'same' and nkeys < nrec:
+            bad = bad or (keyst, nkeys, nrec)
+    if bad:
+        ctx.violation(Finding(rule, rm.relpath, qn, bad[0], 'on the path where the file holds %d records the %d names %s are zipped with them: the last record is dropped and the names before '
+                              'it label the wrong records (an old-style file with LAI and TOPO comes back as FLAND and a TOPO that holds the LAI values)' % (bad[2], bad[1], norm(bad[0].value))))
+    elif n:
+        ctx.ok(rule, 'names', where, '%d paths: as many names as records' % n)
+    else:
+        ctx.undec(rule, 'names', where, 'no path with a literal layout and a name list')
+
+
 def check_varorder(ctx):
     src = ctx.src
     wm = src.mod(CAMX + 'cloud_rain/Write.py')
@@ -1385,6 +1444,7 @@ def run(ctx):
     ctx.floor('single elements of flat maps re-interpreted', check_scalar_view(ctx), 1)
     ctx.floor('text attributes sizing a record', check_sized_text(ctx), 1)
     check_landuse(ctx)
+    check_landuse_names(ctx)
     check_api(ctx, ctx.tier)
     ctx.assumptions += ['byte order is ignored when layouts are compared (readers default to big endian, writers spell it)',
                         'hasattr() on the installed numpy decides API existence']
